@@ -443,7 +443,7 @@ class Interp:
                 return MATH_CONSTS[attr]
         if module == "functools" and attr == "reduce":
             return Builtin("reduce")
-        if module == "itertools" and attr in ("zip_longest", "islice", "chain", "product", "accumulate", "repeat", "pairwise"):
+        if module == "itertools" and attr in ("zip_longest", "islice", "chain", "product", "accumulate", "repeat", "pairwise", "filterfalse", "takewhile", "dropwhile", "starmap", "compress"):
             return Builtin("itertools." + attr)
         if module == "sys" and attr == "float_info":
             return Rec(ClassRef("sys", "float_info"), {"epsilon": RF.sym("EPSILON")})
@@ -1853,6 +1853,27 @@ class Interp:
                 nm = a[0]
                 return PyCallable(lambda i, aa, kk: i.eval(ast.Attribute(value=ast.Name(id="__o", ctx=ast.Load()), attr=nm, ctx=ast.Load()), {"__o": aa[0]}))
             raise Undecided(f"{name} not interpreted")
+        if name in ("itertools.filterfalse", "itertools.takewhile", "itertools.dropwhile"):
+            pred, items = a[0], list(self.iterate(a[1]))
+            truth = lambda x: self.decide(x if pred is None else self.call(pred, [x], {}))
+            if name == "itertools.filterfalse":
+                return [x for x in items if not truth(x)]
+            out, dropping = [], True
+            for x in items:
+                if name == "itertools.takewhile":
+                    if not truth(x):
+                        break
+                    out.append(x)
+                else:
+                    if dropping and truth(x):
+                        continue
+                    dropping = False
+                    out.append(x)
+            return out
+        if name == "itertools.starmap":
+            return [self.call(a[0], list(self.iterate(x)), {}) for x in self.iterate(a[1])]
+        if name == "itertools.compress":
+            return [x for x, s_ in zip(self.iterate(a[0]), self.iterate(a[1])) if self.decide(s_)]
         if name == "itertools.product":
             import itertools
             return list(itertools.product(*[self.iterate(x) for x in a], repeat=_idx(kwargs.get("repeat", 1))))
@@ -1913,6 +1934,8 @@ class Interp:
             return [x for x in items if self.decide(self.call(a[0], [x], {}))]
         if name == "enumerate":
             return list(enumerate(self.iterate(a[0]), *(a[1:])))
+        if name == "object":
+            return Rec(ClassRef("builtins", "object"), {}, mutable=True)
         if name == "callable":
             return isinstance(a[0], (Closure, Builtin, PyCallable, ClassRef)) or (isinstance(a[0], Rec) and bool(self.find_method(a[0].cls, "__call__")))
         if name == "repr":
@@ -2295,7 +2318,7 @@ class _Missing:
 
 _MISSING = _Missing()
 
-BUILTINS = {"repr", "callable", "divmod", "len", "range", "zip", "enumerate", "reversed", "sorted", "list", "tuple", "set", "frozenset", "dict", "min",
+BUILTINS = {"object", "repr", "callable", "divmod", "len", "range", "zip", "enumerate", "reversed", "sorted", "list", "tuple", "set", "frozenset", "dict", "min",
             "max", "abs", "round", "float", "int", "str", "bool", "isinstance", "sum", "any", "all", "getattr", "setattr",
             "hasattr", "print", "pow", "type", "super", "iter", "next", "map", "filter", "bytes", "open", "repr", "divmod", "callable"}
 
